@@ -132,6 +132,19 @@ Fixpoint user_offsets_ok (ranges : list mapping) (ns : list tnode) (relocated : 
                 (if tn_kind n =? 1 then false else if tn_kind n =? 2 then true else relocated)
   end.
 
+(** [*=] into a region the program's own bus declares writable leaves the output offset where it was. *)
+Definition user_is_ram (ranges : list mapping) (a : Z) : bool :=
+  match user_range ranges (bank_of a) None with Some m => m_writable m | None => false end.
+Fixpoint user_ram_org_ok (ranges : list mapping) (ns : list tnode) : bool :=
+  match ns with
+  | [] => true
+  | n :: rest =>
+      match rest with
+      | m :: _ => negb (tn_kind n =? 1) || negb (user_is_ram ranges (tn_addr m)) || (tn_pc m =? tn_pc n)
+      | [] => true
+      end && user_ram_org_ok ranges rest
+  end.
+
 (** ** What a case asks the oracle to check *)
 Inductive spec :=
 | SNone
@@ -186,7 +199,8 @@ Definition emit_addr (em : list (nat * Z * nat * Z)) (i : nat) : option Z :=
 Fixpoint spec_ok (s : spec) (impl : obs asmobs) : bool :=
   match s with
   | SAnd a b => spec_ok a impl && spec_ok b impl
-  | SUserOffsets ranges ns => match impl with OOk _ => user_offsets_ok ranges ns false | _ => true end
+  | SUserOffsets ranges ns =>
+      match impl with OOk _ => user_offsets_ok ranges ns false && user_ram_org_ok ranges ns | _ => true end
   | SAccept => match impl with OOk _ => true | _ => false end
   | SLabelValues events =>
       match impl with
